@@ -4,7 +4,7 @@ seeded changes from a matrix file (bin/seedmatrix output: `<seed> <check> rc=<n>
 import json, os, sys, collections
 
 V = os.path.dirname(os.path.dirname(os.path.abspath(__file__)))
-matrices = sys.argv[1:] or [os.path.join(V, "out", "seedmatrix-A.txt"), os.path.join(V, "out", "seedmatrix-B.txt")]
+matrices = sys.argv[1:] or sorted(os.path.join(V, "out", f) for f in os.listdir(os.path.join(V, "out")) if f.startswith("seedmatrix-") and f.endswith(".txt"))
 
 B2 = {
  "C03-1": ("C03", "proxy configured with --unsupported-write-consistencies, a non-SELECT with such a consistency AND a custom payload in the frame", "the re-encoded frame reaches the backend without the client's custom payload"),
@@ -94,6 +94,31 @@ B4 = {
  "C19-4": ("C19", "impostor presenting its own certificate followed by a copy of the genuine one", "any certificate of the list may serve as the verified leaf: impostor accepted"),
  "C20-4": ("C20", "unsupported-write-consistency-override any", "zero value defaulted to LOCAL_QUORUM: 'any' and 'local_quorum' select the same value"),
 }
+B5 = {
+ "C01-5": ("C01", ">= 2 requests for one prepared id in flight on one backend connection that lacks it, all answered UNPREPARED while the first re-PREPARE is unanswered, and that connection lost before the PREPARE is answered", "coalesced re-prepare forgets its waiters on connection loss: they are never answered"),
+ "C01-6": ("C01", "more than 1024 responses queued for one client connection at once (a client that pipelines thousands of requests and reads slowly)", "Conn.Write no longer blocks; the response paths ignore its error: responses silently dropped"),
+ "C02-6": ("C02", "a statement already prepared through the proxy, then >= 2 PREPAREs of it handled before the write loop encodes the first answer (pipelined, or from several clients)", "cached PREPARE responses share one frame header: answers go out with another request's stream id"),
+ "C03-5": ("C03", "override configured, an uncompressed QUERY/EXECUTE write at an unsupported consistency AND a custom payload in front of the message", "consistency patched in place at an offset counted from the message start: two unrelated body bytes overwritten"),
+ "C03-6": ("C03", ">= 2 responses handed to the client connection before its write loop drained the first (pipelined requests, several clients)", "responses encoded into a pooled buffer that is reused while still queued: mixed / duplicated frames at the client"),
+ "C04-8": ("C04", "PREPARE of an idempotent text answered with id X, PREPARE of a non-idempotent text answered with X again, EXECUTE X ending in an error or connection loss", "idempotency metadata written only by the first PREPARE of an id: non-idempotent EXECUTE re-sent"),
+ "C05-8": ("C05", "a request has made its first attempt, a refresh removes a host that sits before an unvisited slot of its plan, then the request fails over", "host removed by splicing the published slice in place: last host tried twice, one host never tried"),
+ "C06-7": ("C06", "a statement that ends inside the type-parameter list of a cast, e.g. `... SET a = (map<int`", "type-parameter skipping loop has no EOF case: IsQueryIdempotent never returns"),
+ "C07-6": ("C07", ">= 2 clients with the same version and compression send USE of the same uncached keyspace while the first attempt is in flight, and that attempt fails", "waiters of a failed session attempt wake up with (nil, nil): answered SET_KEYSPACE and switched to the bad keyspace"),
+ "C09-7": ("C09", "on one connection: a QUERY text, PREPARE of `USE x`, EXECUTE of it, the same QUERY text again", "per-connection parse cache dropped on a USE query but not on an executed prepared USE: stale handled/not-handled verdict"),
+ "C10-6": ("C10", "no rpc-address, proxy reachable through several local addresses, client A reads system.local first, client B through another address afterwards", "local host_id computed once per proxy: B gets rpc_address=addr2 with host_id=uuid3(addr1)"),
+ "C11-5": ("C11", "a BATCH whose last [value] of a child carries a length of -3 or lower inside a specific window", "value skipped by seeking: a negative length seeks backwards and BytesSince slices [pos:smaller]: panic"),
+ "C11-6": ("C11", "a BATCH with a custom payload in front of the message in an uncompressed frame, re-encoded (override)", "the batch keeps its raw head bytes from offset 0 of the frame body: payload written twice, length wrong"),
+ "C13-7": ("C13", "version byte 0x01 (or 0x81) sent in its real 8-byte v1 frame layout", "new 'reject unknown version' path assumes the 9-byte header: neither error nor close, the next frame is eaten"),
+ "C14-7": ("C14", "a registered client whose connection is dead but still in the event set (stuck in a slow USE), other registered clients behind it in the walk", "per-client send returns false to sync.Map.Range: delivery of that event stops for the clients after it"),
+ "C15-7": ("C15", "a topology event schedules a refresh, the control connection is lost before the window elapses, later membership changes", "refresh timer stopped on control loss with the pending flag left set: no later event schedules a refresh, plans keep a removed host"),
+ "C15-8": ("C15", "about 2^32 plans handed out and a host count that does not divide 2^32", "plan offset narrowed to uint32: two consecutive plans start at the same host when the counter crosses a multiple of 2^32"),
+ "C17-6": ("C17", "a backend ERROR frame with flags = TRACING and a body shorter than 16 bytes on a pending stream", "tracing id skipped without a length check before the error code is peeked: slice bounds panic, process dies"),
+ "C17-7": ("C17", "proxy listening with TLS (--proxy-cert-file) and a client that connects and stalls inside the handshake", "handshake completed synchronously in the accept loop without deadline: no later client can connect"),
+ "C18-8": ("C18", ">= 2 statements in the prepared cache and two UNPREPARED answers processed at once on different backend connections", "prepared-cache Load takes only a read lock although the LRU's Get moves list links"),
+ "C19-6": ("C19", ">= 2 nodes behind one SNI-proxy address: connect to node A, then to another endpoint at the same address", "TLS config (with session cache) memoised per resolved address in proxycore.Connect: later nodes get A's SNI, resumed sessions skip verification"),
+ "C20-6": ("C20", "an invalid value (unknown version name, version above max, num-conns 0, heartbeat >= idle) that comes from the YAML file", "checks moved into a Validate() hook that runs before the file is applied: the proxy starts and serves"),
+}
+B4.update(B5)
 B3.update(B4)
 B2.update(B3)
 
@@ -121,7 +146,7 @@ for sid in sorted(os.listdir(os.path.join(V, "seeded"))):
         demos = sorted(f for f in os.listdir(d) if f not in ("patch.diff", "meta.json", "notes.md"))
         meta = {
             "id": sid, "breaks_property": prop,
-            "origin": "fresh sub-agent given only the property text and a scratch worktree of /repo (commit %s)" % ("19163b6-ish (78cb41b)" if sid in B4 else "98f4792" if sid in B3 else "2fe6b89"),
+            "origin": "fresh sub-agent given only the property text and a scratch worktree of /repo (commit %s)" % ("19163b6" if sid in B5 else "78cb41b" if sid in B4 else "98f4792" if sid in B3 else "2fe6b89"),
             "needs_to_manifest": needs, "effect": effect, "demonstration": demos,
             "confirmed": "bin/seedconfirm in the scratch worktree: patch applies, go build ok, existing suite passes with it (in a private network namespace), demonstration FAILS with the patch and PASSES without it",
             "checks_run": "bin/seedtest seeded/%s/patch.diff quick %s ; bin/seedmatrix quick" % (sid, prop),
